@@ -157,9 +157,11 @@ impl LazyRaw {
             unreachable!("must be lazy parsed");
         };
         let parsed = Box::into_raw(Box::new(v));
+        // a failure must mean that another reader has published its parsed value, the weak
+        // variant is allowed to fail spuriously
         match self
             .parsed
-            .compare_exchange_weak(ptr, parsed, Ordering::AcqRel, Ordering::Acquire)
+            .compare_exchange(ptr, parsed, Ordering::AcqRel, Ordering::Acquire)
         {
             // will free by drop
             Ok(_) => Ok(unsafe { &*parsed }),
